@@ -41,6 +41,7 @@ func main() {
 	list := flag.Bool("list", false, "print every obligation")
 	noEvidence := flag.Bool("no-evidence", false, "do not write evidence (used for mutant runs)")
 	explain := flag.String("explain", "", "re-run the obligation recorded in a violation file")
+	mutOnly := flag.Bool("mutants", false, "only run the mutant catalogue of the property and report checker sensitivity")
 	flag.Parse()
 	seed, _ := strconv.ParseInt(envOr("VERIF_SEED", "0"), 10, 64)
 
@@ -58,6 +59,25 @@ func main() {
 			ids = append(ids, id)
 		}
 		sort.Strings(ids)
+	}
+	if *mutOnly {
+		rc := 0
+		for _, id := range ids {
+			s := runMutants(id, *repo, *root)
+			for _, d := range s.Detail {
+				fmt.Printf("%-8s %-60s %v\n", id, d["mutant"], d["status"])
+				if d["status"] == "missed" && d["expect"] != "out-of-reach" {
+					rc = 1
+				}
+				if d["status"] == "detected" {
+					for _, r := range d["reports"].([]string) {
+						fmt.Printf("           %s\n", r)
+					}
+				}
+			}
+			fmt.Printf("%s: %d mutants, %d detected, %d missed, %d skipped\n", id, s.Mutants, s.Detected, s.Missed, s.Skipped)
+		}
+		os.Exit(rc)
 	}
 	start := time.Now()
 	before := repoStatus(*repo)
